@@ -9,7 +9,8 @@ SPEC = os.path.join(VERIF, "spec")
 HARNESS = os.path.join(VERIF, "harness")
 BIN = os.path.join(VERIF, "bin")
 OUT = os.path.join(VERIF, "out")
-EVIDENCE = os.path.join(VERIF, "evidence")
+# evidence describes runs against /repo itself; runs against another tree (VERIF_REPO, seeded changes) go to out/
+EVIDENCE = os.path.join(VERIF, "evidence") if not os.environ.get("VERIF_REPO") else os.path.join(VERIF, "out", "evidence-alt")
 NCPU = os.cpu_count() or 4
 
 EXIT_OK, EXIT_VIOLATION, EXIT_INFRA = 0, 1, 2
